@@ -74,13 +74,13 @@ func verifC07IntScope() rel.Scope {
 	return rel.EmptyScope.With("x", rel.NewNumber(float64(x))).With("y", rel.NewNumber(1)).With("z", rel.NewNumber(2))
 }
 
-// verif:bound VerifC07Programs 33 programs (reductions, orderby/rank over numbers and over strings of mixed offsets, calls, set operators, nest, joins, tuple maps, dict ops, nested traversals) over collections of 9..11 members, x in [-2,2] (symbolic), y = 1, z = 2; second evaluation with at most 1 (quick) / 2 (thorough) enumerations out of insertion order (any permutation of up to 3 members, any transposition of more)
+// verif:bound VerifC07Programs 33 programs (reductions, orderby/rank over numbers and over strings of mixed offsets, calls, set operators, nest, joins, tuple maps, dict ops, nested traversals) over collections of 9..11 members, x in [-2,2] (symbolic), y = 1, z = 2; second evaluation with at most 1 enumeration out of insertion order (any permutation of up to 3 members, any transposition of more); VerifC07Floats and VerifC07Superimposed allow 2 in the thorough tier
 // verif:cover VerifC07Programs value deviated
 func VerifC07Programs() {
 	src := verifC07Expand.Replace(verifC07Programs[verifChoice(len(verifC07Programs))])
 	sc := verifC07IntScope()
 	r0 := verifC08Eval(src, sc)
-	verifOrderFree()
+	verifOrderFreeN(1) // both tiers: two deviations over 36 programs do not finish within an hour
 	r1 := verifC08Eval(src, sc)
 	if verifOrderDeviations() > 0 {
 		verifCover("deviated")
@@ -167,7 +167,7 @@ func VerifC07Printed() {
 	if !r0.failed {
 		p0, s0 = fu.Repr(r0.v), r0.v.String()
 	}
-	verifOrderFree()
+	verifOrderFreeN(1)
 	r1 := verifC08Eval(src, sc)
 	verifC07Output(r1)
 	verifAssert("seed-independent-failure", r0.failed == r1.failed)
